@@ -572,6 +572,7 @@ def _episode(w, sc):
     """one accept()/run() in the main thread; returns the outcome dict"""
     from cobald.daemon.runners.service import ServiceRunner
 
+    w.ended.clear()
     if sc.get("runner", "service") == "meta":
         w.runner = MetaRunnerAdapter()
     else:
@@ -590,7 +591,6 @@ def _episode(w, sc):
         drivers.append(t)
     outcome = {}
     t_begin = w.now()
-    w.ended.clear()
     signal.signal(signal.SIGINT, signal.default_int_handler)
     try:
         try:
@@ -652,7 +652,7 @@ def _child(scenario, wfd):
     try:
         episodes = scenario.get("episodes") or [scenario]
         result["episodes"] = []
-        for sc in episodes:
+        for ep_index, sc in enumerate(episodes):
             w.sc = sc
             w.specs.update({p["id"]: p for p in sc.get("payloads", [])})
             outcome, drivers = _episode(w, sc)
@@ -663,6 +663,11 @@ def _child(scenario, wfd):
                 t.join(5)
             outcome["drivers_alive"] = sum(1 for t in drivers if t.is_alive())
             outcome["t_linger_end"] = w.now()
+            for o in list(w.ops):
+                o.setdefault("ep", ep_index)
+            for e in list(w.log):
+                if len(e) == 5:
+                    e.append(ep_index)
         w.release.set()
         done.set()
         dump()
